@@ -168,9 +168,11 @@ func ParseCExpr(src string) (e *CExpr, err error) {
 
 type cparseErr string
 
-func (ps *cparser) fail(msg string) { panic(cparseErr(fmt.Sprintf("%s at offset %d", msg, ps.peek().pos))) }
-func (ps *cparser) peek() ctok      { return ps.toks[ps.p] }
-func (ps *cparser) next() ctok      { t := ps.toks[ps.p]; ps.p++; return t }
+func (ps *cparser) fail(msg string) {
+	panic(cparseErr(fmt.Sprintf("%s at offset %d", msg, ps.peek().pos)))
+}
+func (ps *cparser) peek() ctok { return ps.toks[ps.p] }
+func (ps *cparser) next() ctok { t := ps.toks[ps.p]; ps.p++; return t }
 func (ps *cparser) isOp(s string) bool {
 	t := ps.peek()
 	return t.kind == "op" && t.text == s
